@@ -3,6 +3,7 @@
 Reads a session from stdin, writes one result line per request to stdout.
 -/
 import Grevm.Driver.Kernel
+import Grevm.Driver.Components
 
 open Grevm Grevm.Driver
 
@@ -93,6 +94,8 @@ def runSession (lines : List String) : String :=
       match words hd with
       | ["kernel", "ctx", n] => replayCtx (n.toNat?.getD 0) rest
       | ["kernel", "dep", n] => replayDep (n.toNat?.getD 0) rest
+      | "history" :: hd => replayHistory hd rest
+      | ["reward"] => replayReward rest
       | _ => s!"error unknown session header: {hd}"
 
 def main : IO Unit := do
